@@ -62,9 +62,12 @@ HARDENING = {
 
 def run(ctx):
     ctx.modelled += [
-        "strings are byte lists; `Value.Set` is modelled exactly for bool / all integer kinds / string / the harness's "
-        "logging Value; for float32, float64 and time.Duration the results of strconv.ParseFloat / time.ParseDuration "
-        "on every string that can reach `Set` are supplied on the operation line by the generator (section R)",
+        "strings are byte lists; `GeneralValue.Set` is transcribed case by case (Cmd.setVar: ParseBool table, "
+        "ParseInt/ParseUint base 0 with prefixes, underscore rule and the bit size of the kind, string, scalar "
+        "overwrite / slice append) and the driver prints the store of option variables obtained by applying the Set "
+        "calls of the run in order (Cmd.applySets); for float32, float64 and time.Duration the results of "
+        "strconv.ParseFloat / time.ParseDuration on every string that can reach `Set` are supplied on the operation "
+        "line by the generator (section R)",
         "response files are a finite map path -> lines; the harness writes them into a temporary directory, either as "
         "LF-terminated lines or from raw bytes (CRLF, missing final newline, blank lines, lone CR) which the model "
         "splits like bufio.Scanner (Cmd.linesOf); lines of 64 KiB and more are outside the domain",
@@ -77,8 +80,7 @@ def run(ctx):
     ]
     ctx.assumptions += ["response-file arguments contain no newline; lines < 64 KiB"]
     ctx.extra["not_claimed_observations"] = [
-        "a bare `-` where an option is expected is silently dropped (Props.C10.observation_bare_dash_dropped)",
-        "a first positional that starts with `-` or `@` without a preceding `--` is an option / response file by "
+        "a first positional that starts with `-` (other than a lone `-`) or `@` without a preceding `--` is an option / response file by "
         "construction",
         "a response-file reference in value position is taken literally "
         "(Props.C10.observation_reference_in_value_position)",
